@@ -1,4 +1,4 @@
-From MP Require Import Gen.Quotas Gen.Files Gen.Args Text.Import Spec.Matching.
+From MP Require Import Gen.Quotas Gen.Files Gen.Args Gen.ArgsBridge Text.Import Spec.Matching.
 From Coq Require Export QArith.
 Local Open Scope string_scope.
 Local Open Scope list_scope.
@@ -129,4 +129,18 @@ Definition m_ties_extreme (a : gargs) (text : string) (t1code t2code : Z) : bool
          else if t2code =? 0
          then forallb (fun q => forallb (fun q' => (st q =? st q') || negb (rl0 q =? rl0 q')) lp) lp
          else true) (lec_ids M))
+  end.
+
+
+(* the whole generator on the argparse namespace: accepted, and the files are those of generator_run (parser model,
+   defaults, and instance writers composed); the gargs the other relations use are the ones derived here *)
+Definition r_generator (a : namespace) (t1 t2 skew lt_str : string) (g : gargs) (ds : list draws)
+           (impl : list (string * string)) : bool :=
+  match decide a with
+  | Accept a' => gargs_eqb (gargs_of a' t1 t2 skew lt_str) g
+  | _ => false
+  end &&
+  match generator_run a t1 t2 skew lt_str ds with
+  | GFiles files => list_eqb (fun x y => String.eqb (fst x) (fst y) && String.eqb (snd x) (snd y)) files impl
+  | _ => false
   end.
